@@ -65,6 +65,14 @@ var c10Tmpls = []c10Tmpl{
 	{"... style = \"flow\"", "any", "1", true, "style"},
 	{".. style = \"double\"", "any", "1", true, "style"},
 	{"explode(.)", "any", "1", true, "explode"},
+	// a regular expression taken from the document (variable / interpolation): compiled per document
+	{"(.a | to_string) as $p | [.. | select(kind == \"scalar\") | to_string | test($p)]", "map", "1", true, "regex-from-doc"},
+	{"(.x | to_string) as $p | [.. | select(kind == \"scalar\") | to_string | sub($p; \"_\")]", "map", "1", true, "regex-from-doc"},
+	{"[.. | select(kind == \"scalar\") | to_string] | map(test(\"^\\(.[0])\"))", "map", "1", true, "regex-from-doc"},
+	{"(.a | to_string) as $p | [.. | select(kind == \"scalar\") | to_string | match($p) | .string]", "map", "1", true, "regex-from-doc"},
+	{".b | explode(.)", "map", "1", true, "explode"},
+	{"explode(.) | .b", "map", "1", true, "explode"},
+	{"explode(.) | [.b, .c]", "map", "1", true, "explode"},
 	{". * {\"c\": 1}", "map", "1", true, "merge"},
 	{". *+ {\"a\": [0]}", "map", "1", true, "merge"},
 	{". as $x | $x.a", "map", "1", true, "variable"},
@@ -292,10 +300,14 @@ func c10Doc(r *rand.Rand, shape string) (text, kind string) {
 	var v *ref.V
 	switch shape {
 	case "map":
-		if r.IntN(12) == 0 {
+		if r.IntN(6) == 0 {
 			// flow YAML with an anchor and an alias (explode / merge targets); not JSON
 			an := r.IntN(2) // few anchor names, reused across documents on purpose (the decoder keeps one anchor map per file)
-			return fmt.Sprintf("{\"a\": &n%d %d, \"b\": *n%d, \"x\": %d}", an, r.IntN(5), an, r.IntN(5)), "anchors"
+			if r.IntN(2) == 0 {
+				// an anchored map that is aliased and merged: the values differ from document to document
+				return fmt.Sprintf("{\"a\": &n%d {\"img\": \"app:%d\", \"n\": %d}, \"b\": *n%d, \"c\": {\"<<\": *n%d, \"own\": %d}, \"x\": %d}", an, r.IntN(50), r.IntN(50), an, an, r.IntN(5), r.IntN(5)), "anchors"
+			}
+			return fmt.Sprintf("{\"a\": &n%d %d, \"b\": *n%d, \"x\": %d}", an, r.IntN(50), an, r.IntN(5)), "anchors"
 		}
 		v = c10MapDoc(r, 2)
 	case "seq":
@@ -333,10 +345,18 @@ func c10PlainFiles(r *rand.Rand, shape string, allowStdin bool) []c10File {
 		if r.IntN(3) != 0 && nd == 0 {
 			nd = 1 + r.IntN(3)
 		}
+		// sometimes a file "stamped from one template": every document defines the same anchor names again
+		stamped := shape == "map" && nd >= 2 && r.IntN(5) == 0
 		for d := 0; d < nd; d++ {
 			t, k := c10Doc(r, shape)
+			for try := 0; stamped && k != "anchors" && try < 40; try++ {
+				t, k = c10Doc(r, shape)
+			}
 			f.Docs = append(f.Docs, t+"\n")
 			f.Kinds = append(f.Kinds, k)
+		}
+		if stamped {
+			f.Feat = append(f.Feat, "anchors-redefined-per-document")
 		}
 		if nd > 0 && r.IntN(5) == 0 {
 			// the last document of the file has no final newline
